@@ -232,6 +232,12 @@ def impl_fit(case):
             fitter.fit(make_source(w))
         info = fitter.fit(make_source(case['src']))
         out = info_out(info, fitter)
+        if case.get('resort'):       # FitInfo.sort() is public: sorting a result that is already sorted must leave every row describing one model
+            import copy
+            i2 = copy.copy(info)
+            i2.sort()
+            out['resorted'] = dict(model_id=[int(x) for x in i2.model_id], model_name=[(x.decode() if isinstance(x, bytes) else str(x)).strip() for x in i2.model_name],
+                                   chi2=[float(x) for x in i2.chi2])
         if case['mode'] == '3d':      # the same fit with remove_resolved=True (not modelled; its rows are judged by the row / ranking / flux clauses only)
             try:
                 frr = make_fitter(d, case, remove_resolved=True)
